@@ -106,6 +106,7 @@ class Interp:
         self._name_cache = {}
         self.generic_only = False
         self.generic_skipped = 0
+        self.set_order = "sorted"
         self.attr_write_log = None      # optional list of (obj, attr, qualname)
         self.call_log = None            # optional list of (qualname, receiver)
         self.warnings = []
@@ -537,10 +538,7 @@ class Interp:
             return list(v.keys())
         if isinstance(v, (set, frozenset)):
             self.flags.add("set-iterated")
-            try:
-                return sorted(v)
-            except TypeError:
-                return sorted(v, key=repr)
+            return self.order_set(v)
         if isinstance(v, range):
             if len(v) > 100000:
                 raise Unsupported("huge range")
@@ -550,6 +548,22 @@ class Interp:
             if it is not None:
                 return self.iterate(self.call_function(it, [v], {}))
         self.raise_builtin("TypeError", f"object is not iterable: {v!r}")
+
+    def order_set(self, v) -> list:
+        """The iteration order of a set is unspecified (hash-seed dependent for strings); the
+        interpreter can be run under several orders (C18)."""
+        try:
+            items = sorted(v)
+        except TypeError:
+            items = sorted(v, key=repr)
+        mode = self.set_order
+        if mode == "reversed":
+            items.reverse()
+        elif mode == "rotated" and len(items) > 1:
+            items = items[1:] + items[:1]
+        elif mode == "interleaved" and len(items) > 2:
+            items = items[::2] + items[1::2]
+        return items
 
     # ------------------------------------------------------------ assignment
     def assign(self, target, value, env: Env):
